@@ -1037,7 +1037,8 @@ fn handle(g: &mut Global, req: &Request, t_recv: u64) -> Exchange {
         "acme_error" => {
             let ty = frule.get("type").and_then(|v| v.as_str());
             let st = frule.get("status").and_then(|v| v.as_u64()).unwrap_or(400) as u16;
-            let mut pr = problem(ty, st, "injected error");
+            // (the human-readable text may be long and in any language)
+            let mut pr = problem(ty, st, frule.get("detail").and_then(|v| v.as_str()).unwrap_or("injected error"));
             if let Some(sp) = frule.get("subproblems") {
                 if let Ok(mut v) = serde_json::from_slice::<Value>(&pr.body) {
                     v["subproblems"] = sp.clone();
